@@ -12,3 +12,6 @@ func (db *DB) VerifQueueBlocked() bool { return atomic.LoadInt32(&db.blockWrites
 
 // VerifQueuePauseCompaction stops background compaction cycles (and their AdjustThrottle).
 func (db *DB) VerifQueuePauseCompaction() { db.lsm.VerifQueuePauseCompaction() }
+
+// VerifQueueMemFree: free accounted space of the active memtable (see lsm.VerifQueueMemFree).
+func (db *DB) VerifQueueMemFree() int64 { return db.lsm.VerifQueueMemFree() }
